@@ -167,6 +167,18 @@ class Context:
         import mxlpy.surrogates._qss  # noqa: F401
 
         logging.getLogger("mxlpy").setLevel(logging.ERROR)
+        # progress bars of the library only add noise to stderr
+        import mxlpy.parallel as _par
+
+        if not getattr(_par.tqdm, "_mc_quiet", False):
+            _real_tqdm = _par.tqdm
+
+            def _quiet_tqdm(*a, **k):
+                k["disable"] = True
+                return _real_tqdm(*a, **k)
+
+            _quiet_tqdm._mc_quiet = True
+            _par.tqdm = _quiet_tqdm
 
     # -- scratch ---------------------------------------------------------------------
     def cleanup(self):
